@@ -103,13 +103,13 @@ ClassOf(a, K, vars) ==
 Profile(rep, rport, ruser, rfrag, sort, dscheme) ==
   [repeated |-> rep, removePort |-> rport, removeUserInfo |-> ruser, removeFragment |-> rfrag, sort |-> sort, defaultScheme |-> dscheme,
    opts |-> DefaultOpts, skipEq |-> FALSE]
-(* the two predefined experimental profiles, as far as they are modelled: parser options with a modelled effect (collapse,
-   single-percent, replaced sets, special schemes, host function) + the pipeline.  NOT modelled: lax host parsing, accept-invalid-
-   code-points, the Latin-1 override - ExactDomain says for which inputs these cannot matter. *)
+(* the two predefined experimental profiles: every parser option they set is modelled in BasicParser (collapse, single-percent,
+   replaced sets, special schemes, host function, lax host parsing, accept-invalid-code-points, the Latin-1 override), so their output
+   is predicted for ANY input whose host does not need the IDNA oracle. *)
 LaxQuerySet == SetDel(SetQuery, {34, 37, 47, 59, 63, 123})
-GsbOpts == [DefaultOpts EXCEPT !.sQuery = LaxQuerySet, !.collapse = TRUE, !.singlePct = TRUE, !.preHost = "gsb"]
+GsbOpts == [DefaultOpts EXCEPT !.sQuery = LaxQuerySet, !.collapse = TRUE, !.singlePct = TRUE, !.preHost = "gsb", !.lax = TRUE, !.acceptInvalid = TRUE]
 SemanticOpts == [DefaultOpts EXCEPT !.special = GopherSpecial, !.sPath = SetDel(SetPath, {46, 60, 62}), !.sQuery = LaxQuerySet, !.collapse = TRUE,
-                                    !.singlePct = TRUE, !.preHost = "semantic"]
+                                    !.singlePct = TRUE, !.preHost = "semantic", !.lax = TRUE, !.acceptInvalid = TRUE, !.latin1 = TRUE]
 ProfileOf(name) ==
   CASE name = "WhatWg" -> Profile(FALSE, FALSE, FALSE, FALSE, "none", <<>>)
     [] name = "WhatWgSortQuery" -> Profile(FALSE, FALSE, FALSE, FALSE, "keys", <<>>)
@@ -131,7 +131,7 @@ ModelledProfiles == {"WhatWg", "WhatWgSortQuery", "canon:remove_userinfo", "cano
 ExperimentalProfiles == {"GoogleSafeBrowsing", "Semantic"}
 
 (* bytes of a Go string given as text (raw pseudo code points are single bytes) *)
-BytesOf(t) == Flat([i \in 1..Len(t) |-> IF IsRaw(t[i]) THEN <<t[i] - RawBase>> ELSE Utf8(t[i])])
+BytesOf(t) == BytesOfT(t)
 RECURSIVE DecodeBytesAcc(_, _)
 DecodeBytesAcc(b, i) == IF i > Len(b) THEN <<>>
                         ELSE IF IsPctTriple(b, i) THEN <<16 * HexVal(b[i+1]) + HexVal(b[i+2])>> \o DecodeBytesAcc(b, i + 3)
@@ -145,25 +145,22 @@ LaxPathSet == SetDel(SetPath, {46, 60, 62})
 RepQuerySet == SetAdd(SetC0Space, {35, 37, 38, 61})
 
 (* parameter lists are kept as BYTE strings here (Go strings): the canonicalizer works on bytes, and a decoded name may not be UTF-8 *)
-PairBytes(item) == LET k == IndexOf(item, 61) IN
-                   IF k = 0 THEN <<PctDecode(PlusToSpace(item)), <<>>>>
-                   ELSE <<PctDecode(PlusToSpace(SubSeq(item, 1, k - 1))), PctDecode(PlusToSpace(Drop(item, k)))>>
-ParseQBytes(q) == LET items == SelectSeq(Split(q, 38), NonEmpty) IN [i \in 1..Len(items) |-> PairBytes(items[i])]
+DecForm(o, item) == DecodeO(o, BytesOfT(PlusToSpace(item)), 1)
+PairBytes(o, item) == LET k == IndexOf(item, 61) IN
+                      IF k = 0 THEN <<DecForm(o, item), <<>>>>
+                      ELSE <<DecForm(o, SubSeq(item, 1, k - 1)), DecForm(o, Drop(item, k))>>
+ParseQBytes(o, q) == LET items == SelectSeq(Split(q, 38), NonEmpty) IN [i \in 1..Len(items) |-> PairBytes(o, items[i])]
 (* the library's serializer on a byte string: it ranges over RUNES - an invalid byte becomes U+FFFD, a space '+' *)
 RECURSIVE ImplEscBytes(_, _, _)
-ImplEscBytes(S, b, i) ==
+ImplEscBytes(o, b, i) ==
   IF i > Len(b) THEN <<>>
   ELSE LET r == Utf8At(b, i) IN
-       (IF r[1] = -1 THEN PctCp(65533) ELSE IF r[1] = 32 THEN <<43>> ELSE EncCp(S, r[1])) \o ImplEscBytes(S, b, i + r[2])
+       (IF r[1] = 32 THEN <<43>> ELSE Enc1(o, o.sQuery, IF r[1] = -1 THEN 65533 ELSE r[1])) \o ImplEscBytes(o, b, i + r[2])
 SerQBytes(pr, l) == IF l = <<>> THEN <<>>
-                    ELSE JoinWith([i \in 1..Len(l) |-> ImplEscBytes(pr.opts.sQuery, l[i][1], 1)
-                                                       \o (IF pr.skipEq /\ l[i][2] = <<>> THEN <<>> ELSE <<61>>) \o ImplEscBytes(pr.opts.sQuery, l[i][2], 1)], 38)
+                    ELSE JoinWith([i \in 1..Len(l) |-> ImplEscBytes(pr.opts, l[i][1], 1)
+                                                       \o (IF pr.skipEq /\ l[i][2] = <<>> THEN <<>> ELSE <<61>>) \o ImplEscBytes(pr.opts, l[i][2], 1)], 38)
 WriteBack(pr, u, l) == LET q == SerQBytes(pr, l) IN [u EXCEPT !.query = IF q # <<>> THEN Some(q) ELSE IF u.query # None THEN Some(<<>>) ELSE None]
-(* inputs for which the unmodelled options of the experimental profiles cannot matter: pure ASCII, and no byte >= 0x80 appears at any
-   depth of percent-decoding (no invalid UTF-8, nothing for the Latin-1 override to re-inflate); a host the strict parser rejects is
-   excluded by CanonRun itself (failure in a host state -> no prediction) *)
-ExactDomain(in) == (\A i \in 1..Len(in) : in[i] < 128) /\ \A i \in 1..Len(RepeatedDecode(in)) : RepeatedDecode(in)[i] < 128
-ListNow(u, lst) == IF lst # None THEN Get(lst) ELSE IF u.query = None THEN <<>> ELSE ParseQBytes(Get(u.query))
+ListNow(o, u, lst) == IF lst # None THEN Get(lst) ELSE IF u.query = None THEN <<>> ELSE ParseQBytes(o, Get(u.query))
 DecodeEncodeB(b, S) == EncodeBytes(S, RepeatedDecode(b))
 
 (* the result: [u, asked] ; asked = TRUE when a non-trivial domain would need the IDNA oracle (no prediction) *)
@@ -173,8 +170,8 @@ CanonSteps(pr, u0) ==
       u1 == hostStep.u
       u2 == IF pr.repeated /\ SerPath(u1) # <<>> THEN SetPathnameO(pr.opts, u1, DecodeEncode(SerPath(u1), LaxPathSet)) ELSE u1
       doIter == pr.repeated /\ Search(u2) # <<>>
-      l3 == IF doIter THEN Some([i \in 1..Len(ListNow(u2, None)) |->
-                                 <<DecodeEncodeB(ListNow(u2, None)[i][1], RepQuerySet), DecodeEncodeB(ListNow(u2, None)[i][2], RepQuerySet)>>])
+      l3 == IF doIter THEN Some([i \in 1..Len(ListNow(pr.opts, u2, None)) |->
+                                 <<DecodeEncodeB(ListNow(pr.opts, u2, None)[i][1], RepQuerySet), DecodeEncodeB(ListNow(pr.opts, u2, None)[i][2], RepQuerySet)>>])
             ELSE None
       u3 == IF doIter THEN WriteBack(pr, u2, Get(l3)) ELSE u2
       u4 == IF ~pr.repeated THEN u3
@@ -182,8 +179,8 @@ CanonSteps(pr, u0) ==
       u5 == IF pr.removePort THEN SetPortO(pr.opts, u4, <<>>) ELSE u4
       u6 == IF pr.removeUserInfo THEN SetPassword(SetUsername(u5, <<>>), <<>>) ELSE u5
       u7 == IF pr.removeFragment THEN SetHashO(pr.opts, u6, <<>>) ELSE u6
-      u8 == IF pr.sort = "keys" THEN WriteBack(pr, u7, SortByName(ListNow(u7, l3)))
-            ELSE IF pr.sort = "param" THEN WriteBack(pr, u7, SortByBoth(ListNow(u7, l3))) ELSE u7
+      u8 == IF pr.sort = "keys" THEN WriteBack(pr, u7, SortByName(ListNow(pr.opts, u7, l3)))
+            ELSE IF pr.sort = "param" THEN WriteBack(pr, u7, SortByBoth(ListNow(pr.opts, u7, l3))) ELSE u7
   IN [u |-> u8, asked |-> hostStep.asked # None]
 HostStates == {"host", "hostname", "fileHost"}
 CanonRun(name, in) ==
@@ -191,8 +188,7 @@ CanonRun(name, in) ==
       r0 == ParseO(in, None, None, pr.opts)
       r == IF r0.res = "fail" /\ r0.failAt = "noScheme" /\ pr.defaultScheme # <<>>
            THEN ParseO(pr.defaultScheme[1] \o <<58, 47, 47>> \o in, None, None, pr.opts) ELSE r0
-      unmodelled == name \in ExperimentalProfiles /\ (~ExactDomain(in) \/ (r.res = "fail" /\ r.failAt \in HostStates))
-  IN IF r.asked # None \/ unmodelled THEN [fail |-> FALSE, asked |-> TRUE, u |-> EmptyUrl, opts |-> pr.opts]
+  IN IF r.asked # None THEN [fail |-> FALSE, asked |-> TRUE, u |-> EmptyUrl, opts |-> pr.opts]
      ELSE IF r.res = "fail" THEN [fail |-> TRUE, asked |-> FALSE, u |-> EmptyUrl, opts |-> pr.opts]
      ELSE LET c == CanonSteps(pr, r.u) IN [fail |-> FALSE, asked |-> c.asked, u |-> c.u, opts |-> pr.opts]
 ====
